@@ -71,3 +71,6 @@ package redis
 //@   props C02 C06
 //@   requires tx != nil
 //@   modifies everything
+// [C02] single CAS winner, the client's half: the body succeeds (and writes) only if the version the caller expects
+// is the version decoded from a value it read through the watching transaction for this very key
+//@   ensures [C02] cas: r0 == nil ==> readKey(verSource(old(record.Version))) == *key
